@@ -554,6 +554,36 @@ def check_error_path_constructs(eng, run):
     run.floor("C17.hook functions on the catch-all exit path", n, 2)
 
 
+def check_serializers_hold_no_stream_state(eng, run):
+    """one serializer object serves every connection of a server: what belongs to *one* stream (the reader that accumulates a partial
+    frame, a scratch buffer, a decompressor) is created per call of the incremental methods, never kept on the serializer.  No
+    serializer class stores a stream reader / byte buffer / queue instance on `self`, and no incremental (generator) method stores
+    to `self` at all - the bytes of one client's unfinished packet would be prepended to another client's."""
+    STATEFUL = {"GeneratorStreamReader", "BytesIO", "bytearray", "deque", "StringIO"}
+    n = 0
+    for ci in eng.db.classes.values():
+        if not ci.module.name.startswith("easynetwork.serializers") or ci.module.name.endswith("serializers.tools"):
+            continue
+        for m in ci.methods.values():
+            if isinstance(m.node, ast.Lambda) or m.self_name is None:
+                continue
+            for st in own_nodes(m.node):
+                if not isinstance(st, (ast.Assign, ast.AnnAssign, ast.AugAssign)):
+                    continue
+                tg = st.targets if isinstance(st, ast.Assign) else [st.target]
+                if not any(isinstance(t, ast.Attribute) and dotted(t.value) == m.self_name for t in tg):
+                    continue
+                n += 1
+                v = getattr(st, "value", None)
+                made = isinstance(v, ast.Call) and (dotted(v.func) or "").split(".")[-1] in STATEFUL
+                bad = made or m.is_generator
+                if bad:
+                    run.finding("C17.root", m, st, f"`{ast.unparse(st)[:70]}` keeps per-stream state on the serializer, which is shared by all the connections of a server: the partial data of one "
+                                "client's stream leaks into the packets of another client")
+                run.ob("C17.root", f"{ci.name}.{m.name}:{ast.unparse(tg[0])}:no-stream-state-on-the-serializer", not bad)
+    run.floor("C17.root attribute stores of the serializer classes", n, 30)
+
+
 def run(eng, run):
     from sa.anchors import verify as _verify_anchor_names
     _verify_anchor_names(eng, run)
@@ -571,6 +601,9 @@ def run(eng, run):
     run.attempt(check_close_raises, eng, run)
     run.attempt(check_error_path_constructs, eng, run)
     run.attempt(check_errno_tables, eng, run)
+    run.attempt(check_serializers_hold_no_stream_state, eng, run)
+    from rules import c16 as _c16b
+    run.attempt(_c16b.check_listener_errors_only_logged, eng, run, "C17.hook")  # one peer's socket error is not raised in another client's handler
     # the UDP per-client state machine: a restart that marks the client pending only after the new task was started raises
     # 'inconsistent state' in the server's task group under eager task start - one client's traffic stops the server (rules of C16.single)
     from rules import c16
